@@ -1,6 +1,7 @@
 //! Correspondence harness: decodes the same case bytes as coq/Model/Case.v,
 //! runs the real gamedig code, prints the same canonical text.
 mod alloc;
+mod eco;
 mod canon;
 mod cases;
 mod idcheck;
